@@ -4,6 +4,7 @@ import (
 	"fmt"
 	"strings"
 
+	"cosmossdk.io/math"
 	sdk "github.com/cosmos/cosmos-sdk/types"
 	"github.com/cosmos/cosmos-sdk/types/bech32"
 	authtypes "github.com/cosmos/cosmos-sdk/x/auth/types"
@@ -13,6 +14,7 @@ import (
 	dymnskeeper "github.com/dymensionxyz/dymension/v3/x/dymns/keeper"
 	dymnstypes "github.com/dymensionxyz/dymension/v3/x/dymns/types"
 	dymnsutils "github.com/dymensionxyz/dymension/v3/x/dymns/utils"
+	rollapptypes "github.com/dymensionxyz/dymension/v3/x/rollapp/types"
 )
 
 // C19, third extension — the text level of Dym-Name addresses: validators, ParseDymNameAddress,
@@ -273,6 +275,65 @@ func c19ExecAddr(r *Run, line string, f []string) (string, bool) {
 			r.Hit("dnrt-alias-handed-out")
 		}
 		return fmt.Sprintf("ok %s at=%s dot=%s chain=%s rt=%t", Hex([]byte(text)), at, dot, Hex([]byte(resp.ChainId)), rt), true
+	case "rcreate":
+		id, id2 := unhex(f[1]), unhex(f[2])
+		if c19NonASCII(id) || c19NonASCII(id2) {
+			return "nonascii", true
+		}
+		fx := c19AddrFixture(r)
+		ctx, _ := fx.Ctx.CacheContext()
+		create := func(id, alias, hrp string) error {
+			apptesting.FundForAliasRegistration(fx.App, ctx, alias, apptesting.Alice)
+			msg := &rollapptypes.MsgCreateRollapp{
+				Creator: apptesting.Alice, RollappId: id, InitialSequencer: "*",
+				MinSequencerBond: rollapptypes.DefaultMinSequencerBondGlobalCoin,
+				Alias:            alias, VmType: rollapptypes.Rollapp_EVM,
+				GenesisInfo: &rollapptypes.GenesisInfo{
+					Bech32Prefix: hrp, GenesisChecksum: "1234567890abcdefg", InitialSupply: math.NewInt(1000),
+					NativeDenom: rollapptypes.DenomMetadata{Display: "DEN", Base: "aden", Exponent: 18},
+				},
+				Metadata: &rollapptypes.RollappMetadata{Website: "https://dymension.xyz", Description: "d", LogoUrl: "https://dymension.xyz/logo.png", Telegram: "https://t.me/rolly", X: "https://x.dymension.xyz"},
+			}
+			if err := msg.ValidateBasic(); err != nil {
+				return err
+			}
+			cctx, write := ctx.CacheContext()
+			_, err := fx.App.MsgServiceRouter().Handler(msg)(cctx, msg)
+			if err == nil {
+				write()
+			}
+			return err
+		}
+		if err := create(string(id), "verifa", "vfa"); err != nil {
+			return "refused", true
+		}
+		k := fx.App.RollappKeeper
+		cid := rollapptypes.MustNewChainID(string(id))
+		if _, ok := k.GetRollapp(ctx, string(id)); !ok {
+			panic("created rollapp not found under the id as sent")
+		}
+		_, getTrim := k.GetRollapp(ctx, cid.GetChainID())
+		_, byName := k.GetRollappByName(ctx, cid.GetName())
+		second := create(string(id2), "verifb", "vfb") == nil
+		// monitors: an id the hub registered is a chain id (no surrounding white space), is found under the
+		// ChainID it validates to, and its name is taken
+		if cid.GetChainID() != string(id) {
+			r.Violate("C19/rollapp_id/registered-with-surrounding-white-space",
+				fmt.Sprintf("MsgCreateRollapp registers %q (validated as %q): GetRollapp(%q) found=%t", id, cid.GetChainID(), cid.GetChainID(), getTrim), line)
+		}
+		if !byName {
+			r.Violate("C19/prefix_scan/rollapp-by-name-misses-registered-rollapp",
+				fmt.Sprintf("GetRollappByName(%q) does not return the registered rollapp %q", cid.GetName(), id), line)
+		}
+		if second {
+			if c2, err := rollapptypes.NewChainID(string(id2)); err == nil && c2.GetName() == cid.GetName() {
+				r.Violate("C19/rollapp_id/two-rollapps-one-name",
+					fmt.Sprintf("%q and then %q are both registered: the name %q is taken twice", id, id2, cid.GetName()), line)
+			}
+			r.Hit("rcreate-second-accepted")
+		}
+		r.Hit("rcreate-accepted")
+		return fmt.Sprintf("ok get-trimmed=%t by-name=%t second=%t", getTrim, byName, second), true
 	}
 	return "", false
 }
@@ -423,6 +484,11 @@ func c19AddrDirected(emit func(kind, line string)) {
 			emit("dnrt", fmt.Sprintf("dnrt %s %s %s %s %s", hx(host), c19TableTok(t), hx(c), hx("sub")+","+hx("b"), hx("alice")))
 		}
 	}
+	// rollapp ids with surrounding white space (NewChainID trims, the store keys do not)
+	for _, p := range [][2]string{{"abc_1-1", "abc_2-1"}, {" abc_1-1", "abc_2-1"}, {" abc_1-1", "abc_1-1"}, {"abc_1-1 ", "abd_2-1"},
+		{"\tabd_4-1\n", "abd_4-1"}, {"abc_1-1", " abc_2-1"}, {"abc_1-2", "abc_1-1"}, {" ", "abc_1-1"}} {
+		emit("rcreate", fmt.Sprintf("rcreate %s %s", hx(p[0]), hx(p[1])))
+	}
 	// a host chain-id that is an alias text and is listed as alias of another chain (not the hub's form)
 	emit("dnrt", fmt.Sprintf("dnrt %s %s %s = %s", hx("hubchain"), c19TableTok([]dymnstypes.AliasesOfChainId{{ChainId: "nim_1122-1", Aliases: []string{"hubchain"}}}), hx("nim_1122-1"), hx("alice")))
 }
@@ -433,6 +499,31 @@ func c19GenAddr(r *Run, g *Rng, emit func(kind, line string)) {
 	host := apptesting.TestChainID
 	if g.Chance(15) {
 		host = []string{"hubchain", "dym", "nim", "hub-1"}[g.Intn(4)] // a host chain-id that is also an alias text (not the hub's form)
+	}
+	if g.Chance(6) {
+		ws := func(s string) string {
+			switch g.Intn(6) {
+			case 0:
+				return " " + s
+			case 1:
+				return s + " "
+			case 2:
+				return "\t" + s + "\n"
+			case 3:
+				return s[:len(s)/2] + " " + s[len(s)/2:]
+			}
+			return s
+		}
+		a := c19IdCandidate(g)
+		if g.Chance(70) {
+			a = fmt.Sprintf("%s_%d-1", c19AddrPick(g, []string{"abc", "abd", "a", "rollapp"}), 1+g.Intn(4))
+		}
+		b := fmt.Sprintf("%s_%d-1", c19AddrPick(g, []string{"abc", "abd", "a", "rollapp"}), 1+g.Intn(4))
+		if g.Chance(30) {
+			b = strings.TrimSpace(a)
+		}
+		emit("rcreate", fmt.Sprintf("rcreate %s %s", hx(ws(a)), hx(ws(b))))
+		return
 	}
 	switch g.Intn(10) {
 	case 0, 1:
